@@ -98,13 +98,16 @@ structure St where
   norm : Norm.Cache := []                    -- `_norm_cache`
   /-- seeded-change knob, `false` in the code as it is: `SourceModule.changed` compares with `<` -/
   lt : Bool := false
+  /-- knob, `false` in the code as it is: `norm_package` as it was before a1df565 (an empty result is not cached) -/
+  legacyNorm : Bool := false
   deriving DecidableEq, Repr, Inhabited
 
-def St.empty : St := ⟨[], [], [], [], false⟩
+def St.empty : St := ⟨[], [], [], [], false, false⟩
 
 inductive Variant
   | pinned       -- before b5a1370: only the asked-for module is re-stat'ed
   | coarseOnly   -- b5a1370 without 07fdbb8
+  | noRenorm     -- before a1df565: `_norm_cache` is never looked at again nor dropped
   | current
   | ltChanged    -- the current tree with `changed` written as `self.mtime < getmtime(...)`
   deriving DecidableEq, Repr, Inhabited
@@ -145,6 +148,9 @@ def updCached (st : St) (m : Mod) (f : Cached → Cached) : St :=
 
 def exportedNames (t : Table) : List Ident := t.map Entry.name
 
+/-- the directory `d` (a path from the sources root) contains an `__init__.py` -/
+def pkOf (D : Disk) (d : Mod) : Bool := (get D d).isSome && isPkgName d
+
 /-- the directory of a module's file (`none`: the request's own file, in the sources root) -/
 def dirOf : Option Mod → Mod
   | none => []
@@ -152,7 +158,7 @@ def dirOf : Option Mod → Mod
 
 /-- `norm_package('.' * (up + 1) + m, filename)` with `dir = dirname(filename)`; `none` = ImportError -/
 def normRef (D : Disk) (st : St) (dir : Mod) (up : Nat) (m : Mod) : Option Mod × St :=
-  match Norm.normPackage (fun d => (get D d).isSome && isPkgName d) st.norm dir (up + 1) m with
+  match Norm.normPackage (pkOf D) (!st.legacyNorm) st.norm dir (up + 1) m with
   | (r, c) => (r, { st with norm := c })
 
 /-- `extract_scope`: walk the items (one per line); a star import asks for the other module's
@@ -384,7 +390,21 @@ def appeared (D : Disk) : List Mod → St → Bool × St
     | (false, st1) => appeared D rest st1
 
 /-- `_module_cache.clear(); _missing.clear()` (`_norm_cache` is left alone) -/
-def St.cleared (st : St) : St := { St.empty with norm := st.norm, lt := st.lt }
+def St.cleared (st : St) : St := { St.empty with norm := st.norm, lt := st.lt, legacyNorm := st.legacyNorm }
+
+/-- `_module_cache.clear(); _missing.clear(); _norm_cache.clear()` -/
+def St.clearedAll (st : St) : St := { St.empty with lt := st.lt, legacyNorm := st.legacyNorm }
+
+/-- `Project._renormed`: some directory's package path is not what was cached for it -/
+def renormed (D : Disk) (st : St) : Bool :=
+  st.norm.any (fun p => Norm.parts (pkOf D) (p.1.length + 1) p.1 != p.2)
+
+/-- `check_changes` of the code as it is: changed or appeared or renormed → drop all three caches -/
+def checkNow (D : Disk) (st : St) : St :=
+  if anyChanged D st then st.clearedAll
+  else match appeared D st.missing st with
+    | (true, _) => st.clearedAll
+    | (false, st1) => if renormed D st1 then st1.clearedAll else st1
 
 /-- entering `Project.check_changes()` -/
 def checkChanges (v : Variant) (D : Disk) (st : St) : St :=
@@ -392,16 +412,13 @@ def checkChanges (v : Variant) (D : Disk) (st : St) : St :=
   match v with
   | .pinned => st
   | .coarseOnly => if anyChanged D st then { st with mcache := [] } else st
-  | .current =>
+  | .noRenorm =>
     if anyChanged D st then st.cleared
     else match appeared D st.missing st with
       | (true, _) => st.cleared
       | (false, st1) => st1
-  | .ltChanged =>
-    if anyChanged D st then st.cleared
-    else match appeared D st.missing st with
-      | (true, _) => st.cleared
-      | (false, st1) => st1
+  | .current => checkNow D st
+  | .ltChanged => checkNow D st
 
 /-- one request of the server: `with project.check_changes(): answer` -/
 def request (v : Variant) (fuel : Nat) (D : Disk) (st : St) (q : Query) : Ans × St :=
@@ -424,7 +441,9 @@ structure World where
   st : St
   deriving DecidableEq, Repr, Inhabited
 
-def World.init (v : Variant) (D : Disk) : World := ⟨D, { St.empty with lt := v == .ltChanged }⟩
+def World.init (v : Variant) (D : Disk) : World :=
+  ⟨D, { St.empty with lt := v == .ltChanged,
+                       legacyNorm := v == .pinned || v == .coarseOnly || v == .noRenorm }⟩
 
 /-- the (file, mtime) pairs a disk has -/
 def seenOf (D : Disk) : List (Mod × Nat) := D.map (fun p => (p.1, p.2.mtime))
